@@ -314,7 +314,7 @@ func vbEscAnswer(s string) string {
 	plain := !strings.HasPrefix(s, "~")
 	for k := 0; k < len(s) && plain; k++ {
 		c := s[k]
-		if c <= 0x20 || c >= 0x7f || c == ',' || c == ':' || c == '@' || c == '=' {
+		if c <= 0x20 || c >= 0x7f || c == ',' || c == ':' || c == '@' {
 			plain = false
 		}
 	}
